@@ -248,6 +248,17 @@ func recordTime(args []string) int {
 			}
 		}
 	}
+	// an unknown zone stays unknown however often it is asked for, also right after a known one
+	for _, z := range []string{"Mars/Olympus", "Mars/Olympus", "Asia/Tokyo", "No/Such", "No/Such", "No/Such", "Europe/Paris", "Mars/Olympus", "Mars/Olympus"} {
+		_, err := evalWith("useTimezone(t, z)", map[string]interface{}{"t": times[0], "z": z})
+		if z == "Asia/Tokyo" || z == "Europe/Paris" {
+			if err != nil {
+				return fail(err)
+			}
+			continue
+		}
+		evs = append(evs, mk("badtz", map[string]any{"err": err != nil, "args": z}))
+	}
 	for _, z := range []string{"Mars/Olympus", "No/Such", "UTC+25x"} {
 		_, err := evalWith("useTimezone(t, z)", map[string]interface{}{"t": times[0], "z": z})
 		evs = append(evs, mk("badtz", map[string]any{"err": err != nil, "args": z}))
